@@ -641,10 +641,12 @@ theorem round_half_variants_agree_exact {x : UInt32} {q : ℚ} (hx : toRat? x = 
 example : roundUpHalfNoFp 0x40200000 = 0x40600000 ∧ roundUpHalfFp F32.floor 0x40200000 = 0x40600000 := by
   decide +kernel   -- x = 2.5 ↦ 3.5 in both
 
-/-- Below `−½` the variants differ (truncation toward zero is not floor): `x = −1.75` gives `−1.5`
-with fp and `−0.5` without.  Such coordinates are clipped away before rasterisation. -/
-theorem round_half_variants_differ_below :
-    roundUpHalfFp F32.floor 0xBFE00000 = 0xBFC00000 ∧ roundUpHalfNoFp 0xBFE00000 = 0xBF000000 := by
+/-- Since fix b772987 compares the candidate centre with `x` itself, the two variants also agree
+below `−½`, where truncation toward zero is not floor: `x = −1.75` gives `−1.5` in both (before the fix
+the no-fp build gave `−0.5`). -/
+theorem round_half_variants_agree_below_witness :
+    roundUpHalfFp F32.floor 0xBFE00000 = 0xBFC00000 ∧ roundUpHalfNoFp 0xBFE00000 = 0xBFC00000 := by
+  unfold roundUpHalfFp roundUpHalfNoFp roundUpHalfCore
   decide +kernel
 
 /-- With the repaired fallback `floor` the fp variant is the same function whichever exact back end
@@ -716,18 +718,117 @@ theorem add_congr_left {a a' b : UInt32} {x y : ℚ} (ha : toRat? a = some x) (h
   have : (x + y == 0) = false := by simpa using hne
   simp only [Bool.or_self, Bool.false_eq_true, ↓reduceIte, this]
 
+theorem toRat?_neg_half : toRat? (neg half) = some (-1 / 2) := by decide +kernel
+
+/-- The comparison-and-adjust step depends only on the (integral) value of `n`. -/
+theorem round_half_core_congr {n n' x : UInt32} {z : ℤ} (hn : toRat? n = some (z : ℚ))
+    (hn' : toRat? n' = some (z : ℚ)) : roundUpHalfCore n x = roundUpHalfCore n' x := by
+  have hodd : ∀ c : ℚ, (c = 1 / 2 ∨ c = -1 / 2) → (z : ℚ) + c ≠ 0 := by
+    intro c hc h
+    have h2 : (2 : ℚ) * z + 2 * c = 0 := by linarith
+    rcases hc with hc | hc <;> rw [hc] at h2
+    · have : ((2 * z + 1 : ℤ) : ℚ) = 0 := by push_cast; linarith
+      have : (2 * z + 1 : ℤ) = 0 := by exact_mod_cast this
+      omega
+    · have : ((2 * z - 1 : ℤ) : ℚ) = 0 := by push_cast; linarith
+      have : (2 * z - 1 : ℤ) = 0 := by exact_mod_cast this
+      omega
+  have h1 : sub n half = sub n' half := by
+    unfold sub; exact add_congr_left hn hn' toRat?_neg_half (hodd _ (Or.inr rfl))
+  have h2 : add n half = add n' half := add_congr_left hn hn' toRat?_half (hodd _ (Or.inl rfl))
+  unfold roundUpHalfCore; rw [h1, h2]
+
 /-- **Pixel rounding is the same with the `mm` back end's `floor`**: whenever the rounded sum
-`x + 0.5` is finite, `floor(x + 0.5) + 0.5` returns the same bits with the guarded `mm::floor` as with
-the exact one. -/
+`x + 0.5` is finite, `round_up_to_half` returns the same bits with the guarded `mm::floor` as with the
+exact one. -/
 theorem round_half_mm_eq {x : UInt32} {σ : ℚ} (hs : toRat? (add x half) = some σ) :
     roundUpHalfFp mmFloor x = roundUpHalfFp F32.floor x := by
   unfold roundUpHalfFp
-  apply add_congr_left (mm_floor_exact hs) (floor_value hs) toRat?_half
-  have : (((⌊σ⌋ : ℤ) : ℚ)) + 1 / 2 = ((2 * ⌊σ⌋ + 1 : ℤ) : ℚ) / 2 := by push_cast; ring
-  rw [this]
-  have hodd : (2 * ⌊σ⌋ + 1 : ℤ) ≠ 0 := by omega
-  have : ((2 * ⌊σ⌋ + 1 : ℤ) : ℚ) ≠ 0 := by exact_mod_cast hodd
-  exact div_ne_zero this (by norm_num)
+  exact round_half_core_congr (mm_floor_exact hs) (floor_value hs)
+
+/-- **round_up_to_half_exact** (the repaired function, fix b772987).  For every finite `x` with
+`|x| < 2^22` the result is *exactly* the next pixel centre `⌊x + ½⌋ + ½` — also where the float sum
+`x + 0.5` is rounded (e.g. `x = 0.49999997`, where the code before the fix returned `1.5`). -/
+theorem round_up_to_half_exact {x : UInt32} {q : ℚ} (hx : toRat? x = some q) (hq : |q| < 2 ^ 22) :
+    toRat? (roundUpHalfFp F32.floor x) = some (((⌊q + 1 / 2⌋ : ℤ) : ℚ) + 1 / 2) := by
+  set k : ℤ := ⌊q + 1 / 2⌋ with hk
+  have hb := abs_lt.1 hq
+  have hk1 : (k : ℚ) ≤ q + 1 / 2 := Int.floor_le _
+  have hk2 : q + 1 / 2 < (k : ℚ) + 1 := Int.lt_floor_add_one _
+  have hklo : -(2 ^ 22 : ℤ) ≤ k := by
+    apply Int.le_floor.2; push_cast; linarith
+  have hkhi : k ≤ 2 ^ 22 := by
+    have : (k : ℚ) < 2 ^ 22 + 1 := by linarith
+    have : k < 2 ^ 22 + 1 := by exact_mod_cast this
+    omega
+  -- the rounded sum lies between the representable anchors k and k + 1
+  have hrk : Rep ((k : ℤ) : ℚ) := rep_int (by rw [abs_le]; constructor <;> omega)
+  have hrk1 : Rep (((k + 1 : ℤ) : ℤ) : ℚ) := rep_int (by rw [abs_le]; constructor <;> omega)
+  obtain ⟨σ, hσ, hσ1, hσ2⟩ : ∃ σ, toRat? (add x half) = some σ ∧ (k : ℚ) ≤ σ ∧ σ ≤ (k : ℚ) + 1 := by
+    unfold add
+    rw [isNaN_eq_false_of_some hx, isNaN_eq_false_of_some toRat?_half, hx, toRat?_half]
+    simp only [Bool.or_self, Bool.false_eq_true, ↓reduceIte]
+    by_cases h0 : q + 1 / 2 = 0
+    · have hb0 : (q + 1 / 2 == 0) = true := by rw [h0]; rfl
+      rw [hb0]; simp only [↓reduceIte]
+      have hk0 : k = 0 := by rw [hk, h0]; simp
+      split
+      · exact ⟨0, toRat?_zeroS _, by rw [hk0]; simp, by rw [hk0]; simp⟩
+      · exact ⟨0, toRat?_zero, by rw [hk0]; simp, by rw [hk0]; simp⟩
+    · have hb0 : (q + 1 / 2 == 0) = false := by simpa using h0
+      rw [hb0]; simp only [Bool.false_eq_true, ↓reduceIte]
+      have := ofRat_between hrk hrk1 hk1 (by push_cast; linarith)
+      obtain ⟨v, hv, hv1, hv2⟩ := this
+      exact ⟨v, hv, hv1, by push_cast at hv2; exact hv2⟩
+  -- n = ⌊σ⌋ is k or k + 1
+  have hn := floor_value hσ
+  have hfl : ⌊σ⌋ = k ∨ (⌊σ⌋ = k + 1 ∧ σ = (k : ℚ) + 1) := by
+    rcases lt_or_eq_of_le hσ2 with h | h
+    · left; rw [Int.floor_eq_iff]; exact ⟨hσ1, h⟩
+    · right; refine ⟨?_, h⟩
+      rw [h]; have : ((k : ℚ) + 1) = ((k + 1 : ℤ) : ℚ) := by push_cast; rfl
+      rw [this, Int.floor_intCast]
+  have hrep_half : ∀ z : ℤ, -(2 ^ 22 : ℤ) - 1 ≤ z → z ≤ 2 ^ 22 + 1 → Rep ((z : ℚ) + 1 / 2) := by
+    intro z h1 h2
+    refine ⟨(2 * z + 1).natAbs, -1, ?_, by norm_num, by norm_num, ?_⟩
+    · have : ((2 * z + 1).natAbs : ℤ) < 2 ^ 24 := by rw [Int.natCast_natAbs, abs_lt]; constructor <;> omega
+      exact_mod_cast this
+    · have e : (z : ℚ) + 1 / 2 = ((2 * z + 1 : ℤ) : ℚ) * (2 : ℚ) ^ (-1 : ℤ) := by push_cast; norm_num; ring
+      rw [e, abs_mul, abs_of_pos (by positivity : (0 : ℚ) < (2 : ℚ) ^ (-1 : ℤ)), ← Int.cast_abs, Int.abs_eq_natAbs]
+      simp
+  unfold roundUpHalfFp roundUpHalfCore
+  rcases hfl with hf | ⟨hf, hσe⟩
+  · -- n = k: k − ½ ≤ x, so the centre above is taken
+    rw [hf] at hn
+    have hsub : toRat? (sub (F32.floor (add x half)) half) = some ((k : ℚ) - 1 / 2) := by
+      unfold sub
+      have := add_finite_exact hn toRat?_neg_half (by
+        have := hrep_half (k - 1) (by omega) (by omega)
+        have e : ((k : ℚ) + -1 / 2) = (((k - 1 : ℤ) : ℚ) + 1 / 2) := by push_cast; ring
+        rw [e]; exact this)
+      rw [this]; congr 1; ring
+    rw [gt, lt_finite hx hsub]
+    have : ¬ q < (k : ℚ) - 1 / 2 := by linarith
+    simp only [this, decide_false, Bool.false_eq_true, ↓reduceIte]
+    exact add_finite_exact hn toRat?_half (hrep_half k (by omega) (by omega))
+  · -- the sum was rounded up to k + 1: the centre below it, k + ½, is still above x
+    rw [hf] at hn
+    have hsub : toRat? (sub (F32.floor (add x half)) half) = some ((k : ℚ) + 1 / 2) := by
+      unfold sub
+      have := add_finite_exact hn toRat?_neg_half (by
+        have := hrep_half k (by omega) (by omega)
+        have e : ((((k + 1 : ℤ) : ℤ) : ℚ) + -1 / 2) = ((k : ℚ) + 1 / 2) := by push_cast; ring
+        rw [e]; exact this)
+      rw [this]; congr 1; push_cast; ring
+    rw [gt, lt_finite hx hsub]
+    have : q < (k : ℚ) + 1 / 2 := by linarith
+    simp only [this, decide_true, ↓reduceIte]
+    exact hsub
+
+-- the witness of the repaired defect: x = 0.49999997 ↦ 0.5 (before the fix: 1.5)
+example : roundUpHalfFp F32.floor 0x3EFFFFFF = half ∧ roundUpHalfNoFp 0x3EFFFFFF = half := by
+  unfold roundUpHalfFp roundUpHalfNoFp roundUpHalfCore
+  decide +kernel
 
 example : toRat? (add 0xC0200000 half) = some (-2) ∧
     roundUpHalfFp mmFloor 0xC0200000 = roundUpHalfFp F32.floor 0xC0200000 := by decide +kernel   -- x = −2.5
